@@ -36,8 +36,8 @@ for e in sorted(kf, key=lambda e: e["id"]):
     out.append(f"| {e['id']} | {e['status']} | {', '.join(e['properties'])} | {e.get('commit', '') or ''} | {what} |")
 out.append("")
 out.append("### 13.3 Independently seeded changes and the checks that catch them (from `seeded/*/meta.json`)\n")
-out.append("| seeded change | breaks | suite on the change | demo unchanged / changed | check verdicts | what it needs to manifest (first lines of notes) |")
-out.append("|---|---|---|---|---|---|")
+out.append("| seeded change | breaks | suite on the change | demo unchanged / changed | first run | check verdict now | what it needs to manifest (first lines of notes) |")
+out.append("|---|---|---|---|---|---|---|")
 for d in sorted(glob.glob(os.path.join(VERIF, "seeded", "*"))):
     mp = os.path.join(d, "meta.json")
     if not os.path.exists(mp):
@@ -51,12 +51,47 @@ for d in sorted(glob.glob(os.path.join(VERIF, "seeded", "*"))):
             checks.append(f"{c}: VIOLATION" + (" (no-failing-input-found)" if weak else f" ({len(vl)} replay{'s' if len(vl) != 1 else ''})"))
         else:
             checks.append(f"{c}: exit {r.get('exit')} (missed)")
+    def verdict(chk):
+        outv = []
+        for c, r in (chk or {}).items():
+            vl = r.get("violation_lines") or []
+            if r.get("exit") == 1:
+                weak = bool(vl) and all("no-failing-input-found" in l for l in vl)
+                outv.append("weak" if weak else "caught")
+            else:
+                outv.append("missed")
+        return "/".join(outv) or "?"
+    hist = [h for h in (m.get("history") or []) if h and h.get("checks")]
+    first = verdict(hist[0]["checks"]) if hist else verdict(m.get("checks"))
     needs = (m.get("needs") or "").strip().split("\n")
     needs = " ".join(l.strip("#* ") for l in needs[:3])[:260].replace("|", "\\|")
     suite = (m.get("suite") or {}).get("summary", "not run")
     suite = re.sub(r", \d+ warnings.*", "", suite)
     demo = m.get("demo") or {}
-    out.append(f"| {m['id']} | {m.get('property')} | {suite} | {demo.get('unchanged_exit')} / {demo.get('changed_exit')} | {'; '.join(checks)} | {needs} |")
+    out.append(f"| {m['id']} | {m.get('property')} | {suite} | {demo.get('unchanged_exit')} / {demo.get('changed_exit')} | {first} | {'; '.join(checks)}{' — superseded, see meta.json' if m.get('superseded') else ''} | {needs} |")
+import collections
+cnt = collections.Counter()
+for d in sorted(glob.glob(os.path.join(VERIF, "seeded", "*"))):
+    mp = os.path.join(d, "meta.json")
+    if not os.path.exists(mp):
+        continue
+    m = json.load(open(mp))
+    rnd = {"A": 1, "B": 1, "C": 2, "D": 2, "E": 3, "F": 3}.get(m["id"].split("-")[-1], 0)
+    def v(chk):
+        r = (chk or {}).get(m.get("property"), {})
+        vl = r.get("violation_lines") or []
+        return "missed" if r.get("exit") != 1 else ("weak" if vl and all("no-failing-input-found" in l for l in vl) else "caught")
+    hist = [h for h in (m.get("history") or []) if h and h.get("checks")]
+    cnt[(rnd, "first", v(hist[0]["checks"]) if hist else v(m.get("checks")))] += 1
+    cnt[(rnd, "now", v(m.get("checks")))] += 1
+out.append("")
+out.append("Summary (own property's check; `weak` = reported only as `no-failing-input-found`):")
+out.append("")
+out.append("| round | changes | first run: caught / weak / missed | now: caught / weak / missed |")
+out.append("|---|---|---|---|")
+for rnd in (1, 2, 3):
+    n = sum(cnt[(rnd, "now", k)] for k in ("caught", "weak", "missed"))
+    out.append(f"| {rnd} | {n} | {cnt[(rnd,'first','caught')]} / {cnt[(rnd,'first','weak')]} / {cnt[(rnd,'first','missed')]} | {cnt[(rnd,'now','caught')]} / {cnt[(rnd,'now','weak')]} / {cnt[(rnd,'now','missed')]} |")
 text = "\n".join(out) + "\n"
 
 dp = os.path.join(VERIF, "DESIGN.md")
